@@ -283,30 +283,49 @@ def C10_pkg_total_Full : Prop :=
     (pkgSegment txt = .err ∨ ∃ m, pkgSegment txt = .ok m ∧
       ∀ a b : Bytes, segLookup m (splitPath (pathOf a b)) = resolve (pkgParsed txt) (pathOf a b))
 
-/-- **C10_total for the manifest package, as far as the code allows**: for *every* input string
-whose error-free streams have no uint64 wrap-around (`NoWrap64`), `segment()` never panics; if in
-addition their names are in canonical form (`CleanNames`) the manifest is never applied partially.
-The two excluded input classes are the known findings F10a and F10c (witnesses below). -/
+/-- names of zero-length tokens and the stream name in canonical form. (Since fix b1a09e4 the parser
+itself rejects every *non-empty* token whose combined path `fixStreamName` would alter.) -/
+def CleanEmptyTokens (ps : PStream) : Prop :=
+  ps.name.getLast? ≠ some bSlash ∧
+    ∀ f ∈ ps.files, f.len = 0 → fixStreamName (pathOf ps.name f.name) = pathOf ps.name f.name
+
+/-- **C10_total for the manifest package, as far as the code allows** (after fixes 4f92334, b1a09e4):
+for *every* input string whose error-free streams are shorter than 2^64 bytes (`NoWrap64`; no
+condition on file tokens any more), `segment()` never panics; if in addition zero-length tokens and
+the stream name are in canonical form the manifest is never applied partially: either an error and
+nothing else, or every path resolves over all parsed streams. The excluded class `NoWrap64` is the
+known finding F10d (witness below). -/
 theorem C10_pkg_total_partial (txt : Bytes)
     (hnw : ∀ ps ∈ pkgStreams txt, ps.err = false → NoWrap64 ps) :
     pkgSegment txt ≠ .panic ∧
-    ((∀ ps ∈ pkgStreams txt, ps.err = false → CleanNames ps) →
+    ((∀ ps ∈ pkgStreams txt, ps.err = false → CleanEmptyTokens ps) →
       (pkgSegment txt = .err ∧ ∃ ps ∈ pkgStreams txt, ps.err = true) ∨
       ∃ m, pkgSegment txt = .ok m ∧ (∀ ps ∈ pkgStreams txt, ps.err = false) ∧
         ∀ a b : Bytes, segLookup m (splitPath (pathOf a b)) = resolve (pkgParsed txt) (pathOf a b)) := by
   have hshape : ∀ ps ∈ pkgStreams txt, ps.err = false →
-      ps = toPStream (ofPStream ps) ∧ PkgFit (ofPStream ps) := by
+      ps = toPStream (ofPStream ps) ∧ PkgFit (ofPStream ps) ∧
+      ∀ f ∈ ps.files, f.len > 0 → fixStreamName (pathOf ps.name f.name) = pathOf ps.name f.name := by
     intro ps hps he
+    have hps' := hps
     unfold pkgStreams at hps
     obtain ⟨line, _, rfl⟩ := List.mem_map.mp hps
-    exact pstream_fit line he (hnw _ hps he)
-  refine ⟨segmentStreams_no_panic _ [] hshape, ?_⟩
+    obtain ⟨e1, e2⟩ := pstream_fit line he (hnw _ hps' he)
+    refine ⟨e1, e2, ?_⟩
+    obtain ⟨s, hs, _, h2⟩ := pkgParseStream_shape line he
+    rw [hs]
+    intro f hf hpos
+    exact (h2 f hf).2 hpos
+  refine ⟨segmentStreams_no_panic _ [] (fun ps hps he => ⟨(hshape ps hps he).1, (hshape ps hps he).2.1⟩), ?_⟩
   intro hclean
   have hwf : ∀ ps ∈ pkgStreams txt, ps.err = false → ps = toPStream (ofPStream ps) ∧ PkgWf (ofPStream ps) := by
     intro ps hps he
-    obtain ⟨e1, e2⟩ := hshape ps hps he
+    obtain ⟨e1, e2, e3⟩ := hshape ps hps he
     obtain ⟨c1, c2⟩ := hclean ps hps he
-    exact ⟨e1, e2.sizes, e2.total, e2.inside, c1, c2⟩
+    refine ⟨e1, e2.sizes, e2.total, e2.inside, c1, ?_⟩
+    intro f hf
+    by_cases hz : f.len = 0
+    · exact c2 f hf hz
+    · exact e3 f hf (by omega)
   rcases segmentStreams_total (pkgStreams txt) [] hwf with h | ⟨m, h1, h2, h3⟩
   · exact Or.inl h
   · refine Or.inr ⟨m, h1, h2, ?_⟩
@@ -334,51 +353,35 @@ example : ∀ s ∈ wF3M, FitsGo s ∧ FitsFs s := by
 example : TreeConsistent wF3M := by decide +kernel
 example : resolve wF3M [46, 47, 102] = [⟨[97, 97, 97, 97, 97, 97, 97, 97, 97, 97, 97, 97, 97, 97, 97, 97, 97, 97, 97, 97, 97, 97, 97, 97, 97, 97, 97, 97, 97, 97, 97, 97, 43, 51], 2, 1⟩, ⟨[98, 98, 98, 98, 98, 98, 98, 98, 98, 98, 98, 98, 98, 98, 98, 98, 98, 98, 98, 98, 98, 98, 98, 98, 98, 98, 98, 98, 98, 98, 98, 98, 43, 53], 0, 3⟩] := by decide +kernel
 
-/-- **finding F10a** — `C10_pkg_total_Full` is false: `pos+size` wraps around 2^64 in
-`parseManifestStream`, the token is accepted and the segment iterator panics. -/
+/-- **finding F10d** — `C10_pkg_total_Full` is still false: the block sizes of a stream are summed
+in uint64; here they add up to 2^64+3, the offsets array wraps to `[0,0,2,2^63+1,0,3]`, the file
+token `0:3` passes the range test and the segment iterator panics ("Block end 0 comes before start
+of file segment 0"). -/
+def wF10d : Bytes := [46, 32, 100, 52, 49, 100, 56, 99, 100, 57, 56, 102, 48, 48, 98, 50, 48, 52, 101, 57, 56, 48, 48, 57, 57, 56, 101, 99, 102, 56, 52, 50, 55, 101, 43, 48, 32, 97, 97, 97, 97, 97, 97, 97, 97, 97, 97, 97, 97, 97, 97, 97, 97, 97, 97, 97, 97, 97, 97, 97, 97, 97, 97, 97, 97, 97, 97, 97, 97, 43, 50, 32, 98, 98, 98, 98, 98, 98, 98, 98, 98, 98, 98, 98, 98, 98, 98, 98, 98, 98, 98, 98, 98, 98, 98, 98, 98, 98, 98, 98, 98, 98, 98, 98, 43, 57, 50, 50, 51, 51, 55, 50, 48, 51, 54, 56, 53, 52, 55, 55, 53, 56, 48, 55, 32, 98, 98, 98, 98, 98, 98, 98, 98, 98, 98, 98, 98, 98, 98, 98, 98, 98, 98, 98, 98, 98, 98, 98, 98, 98, 98, 98, 98, 98, 98, 98, 98, 43, 57, 50, 50, 51, 51, 55, 50, 48, 51, 54, 56, 53, 52, 55, 55, 53, 56, 48, 55, 32, 99, 99, 99, 99, 99, 99, 99, 99, 99, 99, 99, 99, 99, 99, 99, 99, 99, 99, 99, 99, 99, 99, 99, 99, 99, 99, 99, 99, 99, 99, 99, 99, 43, 51, 32, 48, 58, 51, 58, 102, 10]
+
+set_option maxRecDepth 100000 in
+theorem wF10d_panics : pkgSegment wF10d = .panic := by decide +kernel
+
+theorem C10_pkg_total_full_fails : ¬ C10_pkg_total_Full := fun h => (h wF10d).1 wF10d_panics
+
+/-- the witnesses of the repaired findings F10a (uint64 wrap of `pos+size`; fix 4f92334) and F10c
+(names altered by `path.Clean`; fix b1a09e4) are now rejected with an error -/
 def wF10a : Bytes := [46, 32, 97, 97, 97, 97, 97, 97, 97, 97, 97, 97, 97, 97, 97, 97, 97, 97, 97, 97, 97, 97, 97, 97, 97, 97, 97, 97, 97, 97, 97, 97, 97, 97, 43, 51, 32, 49, 56, 52, 52, 54, 55, 52, 52, 48, 55, 51, 55, 48, 57, 53, 53, 49, 54, 49, 53, 58, 50, 58, 102, 10]
-
-set_option maxRecDepth 100000 in
-theorem wF10a_panics : pkgSegment wF10a = .panic := by decide +kernel
-
-theorem C10_pkg_total_full_fails : ¬ C10_pkg_total_Full := fun h => (h wF10a).1 wF10a_panics
-
-/-- F10a, second face: the wrapped token `1:18446744073709551615:f` is accepted and applied as an
-empty file although the stream has 3 bytes. -/
 def wF10a2 : Bytes := [46, 32, 97, 97, 97, 97, 97, 97, 97, 97, 97, 97, 97, 97, 97, 97, 97, 97, 97, 97, 97, 97, 97, 97, 97, 97, 97, 97, 97, 97, 97, 97, 97, 97, 43, 51, 32, 49, 58, 49, 56, 52, 52, 54, 55, 52, 52, 48, 55, 51, 55, 48, 57, 53, 53, 49, 54, 49, 53, 58, 102, 10]
-set_option maxRecDepth 100000 in
-example : pkgSegment wF10a2 = .ok [(([46], [102]), [])] := by decide +kernel
-
-/-- **finding F10c** — names that `path.Clean` alters are accepted and their content is dropped:
-for `. a…a+3 0:3:a//b` `segment()` succeeds with an empty file although the parsed streams resolve
-the path to 3 bytes. (So the second half of `C10_pkg_total_Full` fails too.) -/
 def wF10c : Bytes := [46, 32, 97, 97, 97, 97, 97, 97, 97, 97, 97, 97, 97, 97, 97, 97, 97, 97, 97, 97, 97, 97, 97, 97, 97, 97, 97, 97, 97, 97, 97, 97, 97, 97, 43, 51, 32, 48, 58, 51, 58, 97, 47, 47, 98, 10]
 set_option maxRecDepth 100000 in
-theorem wF10c_partially_applied :
-    pkgSegment wF10c = .ok [(([46, 47, 97, 47], [98]), [])] ∧
-    resolve (pkgParsed wF10c) (pathOf [46] [97, 47, 47, 98]) = [⟨[97, 97, 97, 97, 97, 97, 97, 97, 97, 97, 97, 97, 97, 97, 97, 97, 97, 97, 97, 97, 97, 97, 97, 97, 97, 97, 97, 97, 97, 97, 97, 97, 43, 51], 0, 3⟩] := by
+theorem wF10a_rejected : pkgSegment wF10a = .err ∧ pkgSegment wF10a2 = .err := by
   constructor <;> decide +kernel
+set_option maxRecDepth 100000 in
+theorem wF10c_rejected : pkgSegment wF10c = .err := by decide +kernel
 
 /-- `loadManifest`'s "ran off the end of the stream" test for a token `o:l` from the start of a line -/
 def fsPastEnd (blocks : List Loc) (o l : Nat) : Bool :=
   let r := fsLoop (o : Int) (addI64 o l) blocks 0 0 []
   decide (r.1 = blocks.length ∧ r.2.1 < addI64 o l)
 
-/-- **C10_total, collection-fs loader, full statement**: a file token is rejected exactly when it
-reaches past the end of its stream. -/
-def C10_fs_rejects_overlong_Full : Prop :=
-  ∀ (blocks : List Loc) (o l : Nat), o < two63 → l < two63 →
-    (fsPastEnd blocks o l = true ↔ streamLen blocks < o + l)
-
-/-- **finding F10b** — the full statement is false: `offset+length` wraps around 2^63. -/
-theorem C10_fs_rejects_overlong_full_fails : ¬ C10_fs_rejects_overlong_Full := by
-  intro h
-  have := (h [⟨[], 3⟩] 9223372036854775807 2 (by decide) (by decide)).mpr (by decide)
-  revert this
-  decide +kernel
-
-/-- … and true whenever `offset+length` stays below 2^63. -/
-theorem C10_fs_rejects_overlong_partial (blocks : List Loc) (o l : Nat) (h : o + l < two63) :
+/-- the end-of-stream test is exact whenever `offset+length` stays below 2^63 -/
+theorem C10_fs_rejects_overlong_below (blocks : List Loc) (o l : Nat) (h : o + l < two63) :
     fsPastEnd blocks o l = true ↔ streamLen blocks < o + l := by
   unfold fsPastEnd
   rw [addI64_eq o l h]
@@ -399,9 +402,37 @@ theorem C10_fs_rejects_overlong_partial (blocks : List Loc) (o l : Nat) (h : o +
     have hfull : blocks.take k = blocks := by rw [hkl]; exact List.take_length
     rw [hfull]; omega
 
-/-- F10b on text: the loader accepts `. a…a+3 9223372036854775807:2:f` and creates `f` empty. -/
+/-- what `loadManifest` does with the range of a file token `o:l` at the start of a line: an error
+because `offset+length` overflows int64 (fix 499e88b), or because the loop ran off the end -/
+def fsRejects (blocks : List Loc) (o l : Nat) : Bool :=
+  decide (addI64 o l < (o : Int)) || fsPastEnd blocks o l
+
+/-- **C10_total, collection-fs loader** (full strength after fix 499e88b): for every block list the
+loader can hold (`pos` is an int64) and every offset and length `ParseInt` accepts, a file token is
+rejected **exactly** when it reaches past the end of its stream. -/
+theorem C10_fs_rejects_overlong (blocks : List Loc) (o l : Nat) (ho : o < two63) (hl : l < two63)
+    (hs : streamLen blocks < two63) :
+    fsRejects blocks o l = true ↔ streamLen blocks < o + l := by
+  unfold fsRejects
+  by_cases h : o + l < two63
+  · rw [Bool.or_eq_true, C10_fs_rejects_overlong_below blocks o l h, addI64_eq o l h]
+    simp only [decide_eq_true_eq]
+    constructor
+    · rintro (h1 | h1)
+      · omega
+      · exact h1
+    · exact Or.inr
+  · have hwrap : addI64 (o : Int) (l : Int) < (o : Int) := by
+      unfold addI64 toI64
+      have e : ((o : Int) + (l : Int) + (two64 : Int)).toNat = o + l + two64 := by omega
+      rw [e, Nat.add_mod_right, Nat.mod_eq_of_lt (by unfold two63 at ho hl; unfold two64; omega), if_neg h]
+      unfold two63 at h ho hl; unfold two64; omega
+    simp only [hwrap, decide_true, Bool.true_or, true_iff]
+    omega
+
+/-- the witness of the repaired finding F10b is now rejected -/
 def wF10b : Bytes := [46, 32, 97, 97, 97, 97, 97, 97, 97, 97, 97, 97, 97, 97, 97, 97, 97, 97, 97, 97, 97, 97, 97, 97, 97, 97, 97, 97, 97, 97, 97, 97, 97, 97, 43, 51, 32, 57, 50, 50, 51, 51, 55, 50, 48, 51, 54, 56, 53, 52, 55, 55, 53, 56, 48, 55, 58, 50, 58, 102, 10]
 set_option maxRecDepth 100000 in
-example : (fsLoad wF10b).map (·.files) = some [([[102]], [])] := by decide +kernel
+theorem wF10b_rejected : (fsLoad wF10b).isNone = true := by decide +kernel
 
 end ArvVerif.C10
